@@ -12,6 +12,7 @@
 //   - a stub block tracker (genesis header nonce 0 / round 0; for the shard detector it
 //     captures the ReceivedSelfNotarizedFromCrossHeaders handler the detector registers and
 //     the harness fires it).
+//
 // An export file (ovl/export/process/sync/c20.go) reads the detector's unexported structure
 // (per-nonce header lists in stored order, checkpoints, final checkpoint, scalars).
 //
@@ -75,12 +76,12 @@ const (
 
 type roundStub struct{ index *int64 }
 
-func (r *roundStub) Index() int64                 { return *r.index }
-func (r *roundStub) BeforeGenesis() bool          { return false }
-func (r *roundStub) UpdateRound(_, _ time.Time)   {}
-func (r *roundStub) TimeStamp() time.Time         { return time.Unix(genesisTime+*r.index*roundSeconds, 0) }
-func (r *roundStub) TimeDuration() time.Duration  { return roundSeconds * time.Second }
-func (r *roundStub) IsInterfaceNil() bool         { return r == nil }
+func (r *roundStub) Index() int64                { return *r.index }
+func (r *roundStub) BeforeGenesis() bool         { return false }
+func (r *roundStub) UpdateRound(_, _ time.Time)  {}
+func (r *roundStub) TimeStamp() time.Time        { return time.Unix(genesisTime+*r.index*roundSeconds, 0) }
+func (r *roundStub) TimeDuration() time.Duration { return roundSeconds * time.Second }
+func (r *roundStub) IsInterfaceNil() bool        { return r == nil }
 func (r *roundStub) RemainingTime(_ time.Time, _ time.Duration) time.Duration {
 	return 0
 }
@@ -162,7 +163,7 @@ func (y *system) name() string {
 
 // newSystem builds the alphabet. Per nonce n the identities are the product
 // round {n, n+1} x variant {a,b} (two competing hashes with equal round) [x epoch {0,1} when
-// fullEpochs, else one extra identity with epoch 1 at round n]. Hashes are one distinctive
+// fullEpochs, else one extra identity with epoch 1 at round n+1]. Hashes are one distinctive
 // byte chosen so that hash order is not aligned with enumeration order.
 func newSystem(idx int, meta bool, nonces int, fullEpochs bool, startRound int64) *system {
 	y := &system{idx: idx, meta: meta, startRound: startRound, maxRound: int64(nonces) + 3}
@@ -183,7 +184,9 @@ func newSystem(idx int, meta bool, nonces int, fullEpochs bool, startRound int64
 				}
 			}
 		} else {
-			shapes = []shape{{0, 0, "a"}, {0, 0, "b"}, {1, 0, "a"}, {0, 1, "a"}}
+			// the epoch-1 identity has the higher round, so that it is selected only because
+			// lower-epoch competitors are disregarded (the epoch rule is decisive)
+			shapes = []shape{{0, 0, "a"}, {0, 0, "b"}, {1, 0, "a"}, {1, 1, "b"}}
 		}
 		for k, sh := range shapes {
 			id := ident{nonce: n, round: n + sh.dr, epoch: sh.ep, hash: []byte{byte(n), hashByte[k]}}
@@ -650,7 +653,7 @@ func main() {
 		}
 		c.Rule = "explicit-state BFS with state matching (arrival order of stored records is part of the state) over all sequences of: AddHeader(h,Received), AddHeader(h,Processed[,one self-notarized header of the previous nonce; shard]) for h on top of the current tip, " +
 			"ReceivedSelfNotarizedFromCrossHeaders(meta,[h]) (shard), RemoveHeader(h) for stored h (a processed one only from the tip and above the final nonce), ResetFork, SetRollBackNonce(1), CheckFork, round+1, round=15 (consensus-stuck territory); " +
-			"header identities per nonce n: rounds {n,n+1} x two competing hashes, epochs {0,1} (full product in the 'full' systems, one epoch-1 identity otherwise); round index starts at 2; systems: " + strings.Join(desc, "; ") +
+			"header identities per nonce n: rounds {n,n+1} x two competing hashes, epochs {0,1} (full product in the 16-identity systems; otherwise (n,a,e0) (n,b,e0) (n+1,a,e0) (n+1,b,e1)); round index starts at 2; systems: " + strings.Join(desc, "; ") +
 			"; non-trivial = a reached state holding a processed header and >= 1 competing record at the same nonce (distinguished by detector, nonce, number and states of competitors, nonce final or not, fork detected or not)"
 		c.Assumptions = []string{
 			"no wall clock: round index is a harness counter, round duration constant, header time stamps = genesis time + round*duration (genesis-time check always passes), black list always empty",
